@@ -34,7 +34,8 @@ def extra_checks(world):
     for v in hcx.VMODS:
         ns = world.modules[hcx.PROTO + v].ns
         for enum, n in TYPE_COUNT[v].items():
-            have = sorted(int(x) for x in ns[enum].enum_canon)
+            from pyvc.core import unpoisoned
+            have = sorted(int(x) for x in unpoisoned(ns[enum]).enum_canon)  # (Unsupported if the enum is defined outside the subset)
             want = list(range(n))
             diff = {"missing": sorted(set(want) - set(have)), "surplus": sorted(set(have) - set(want))}
             out.append({"name": f"C05/type-numbers-of-the-protocol[{hcx.VTAG[v]}]/{enum}", "tag": "property", "status": "unsat" if have == want else "sat",
